@@ -823,4 +823,362 @@ theorem advanced_wl (c : Cluster) (ns : String) (ref : Ref) (w : W) (h : getAdva
                   simp only at h
                   split at h <;> (cases h; simp_all [agrees, advancedDeploymentFacts, W.opaque]) <;> grind
 
+theorem advanced_out (c : Cluster) (ns : String) (ref : Ref) (o : Out) (h : getAdvancedDeployment c ns ref = o) :
+    (o = .nothing → owns c.filter (groupOf ref) ref.kind .advancedDeployment = true → lookup Deployment.m c.deployments ns ref.name = none) ∧
+    (∀ w, o = .wlErr w → w = W.opaque) ∧
+    (o = .panic → ∃ d, lookup Deployment.m c.deployments ns ref.name = some d ∧
+        (d.replicas = none ∨ ∃ rs ∈ c.replicaSets, rs.replicas = none)) := by
+  unfold getAdvancedDeployment at h
+  rw [vgk_ok] at h
+  split at h
+  · rename_i hv
+    subst h
+    refine ⟨fun _ ho => ?_, by simp, by simp⟩
+    simp only [owns] at ho
+    simp [ho] at hv
+  · cases hg : c.getDeployment ns ref.name with
+    | notFound => rw [hg] at h; subst h; simp [get_notFound _ _ _ _ _ _ hg]
+    | err => rw [hg] at h; subst h; simp
+    | found d =>
+      rw [hg] at h
+      have hl := get_found _ _ _ _ _ _ _ hg
+      simp only at h
+      split at h
+      · subst h; simp
+      · cases hrep : d.replicas with
+        | none => rw [hrep] at h; subst h; simp [hl, hrep]
+        | some rep =>
+          rw [hrep] at h
+          simp only at h
+          split at h
+          · subst h; simp
+          · cases hr : getReplicaSetsForDeployment c d 0 with
+            | error e => rw [hr] at h; subst h; simp
+            | ok rss =>
+              rw [hr] at h
+              have := rss_ok c d 0 rss hr
+              subst this
+              simp only at h
+              cases hf : findCanaryAndStableReplicaSet (activeOwned c d) d with
+              | none =>
+                rw [hf] at h; subst h
+                refine ⟨by simp, by simp, fun _ => ⟨d, hl, Or.inr ?_⟩⟩
+                -- a panic of the loop means some ReplicaSet has no replicas
+                apply Classical.byContradiction
+                intro hno
+                have hall : ∀ rs ∈ sortBy revLess (activeOwned c d), rs.replicas.isSome = true := by
+                  intro rs hrs
+                  have hmem := activeOwned_sub c d rs ((mem_sortBy _ _ _).1 hrs)
+                  cases hq : rs.replicas with
+                  | none => exact absurd ⟨rs, hmem, hq⟩ hno
+                  | some _ => rfl
+                exact findLoop_no_panic d _ (none, none) hall hf
+              | some no =>
+                obtain ⟨n, o'⟩ := no
+                rw [hf] at h
+                subst h
+                simp
+
+theorem advanced_not_owns (c : Cluster) (ns : String) (ref : Ref)
+    (ho : owns c.filter (groupOf ref) ref.kind .advancedDeployment = false) : getAdvancedDeployment c ns ref = .nothing := by
+  unfold getAdvancedDeployment
+  rw [vgk_ok]
+  simp only [owns] at ho
+  simp [ho]
+
+theorem advanced_absent (c : Cluster) (ns : String) (ref : Ref) (hf : c.failGet = [])
+    (hp : present c ns ref .advancedDeployment = false) : getAdvancedDeployment c ns ref = .nothing := by
+  unfold getAdvancedDeployment
+  split
+  · rfl
+  · have : lookup Deployment.m c.deployments ns ref.name = none := by
+      simp only [present] at hp
+      cases hl : lookup Deployment.m c.deployments ns ref.name <;> simp_all
+    unfold Cluster.getDeployment
+    rw [get_noFault _ _ _ _ _ _ hf this]
+
+/-! ### StatefulSet-like -/
+
+theorem stsLikeOf_wl (i : Info) (w : W) (h : stsLikeOf i = .wl w) : agrees w (infoFacts i) = true := by
+  unfold stsLikeOf at h
+  split at h
+  · cases h; simp_all [agrees, infoFacts, W.opaque]
+  · simp only at h
+    split at h
+    · cases h; simp_all [agrees, infoFacts, W.opaque]
+    · split at h <;> (cases h; simp_all [agrees, infoFacts, W.opaque]) <;> grind
+
+theorem stsLikeOf_out (i : Info) : (∃ w, stsLikeOf i = .wl w) := by
+  unfold stsLikeOf
+  split
+  · exact ⟨_, rfl⟩
+  · simp only
+    split
+    · exact ⟨_, rfl⟩
+    · split <;> exact ⟨_, rfl⟩
+
+theorem afterGet_wl {α : Type} (g : GetR α) (parse : α → Option Info) (w : W) (h : afterGet g parse = .wl w) :
+    ∃ o i, g = .found o ∧ parse o = some i ∧ stsLikeOf i = .wl w := by
+  unfold afterGet at h
+  cases g with
+  | notFound => cases h
+  | err => cases h
+  | found o =>
+    simp only at h
+    cases hp : parse o with
+    | none => rw [hp] at h; cases h
+    | some i => rw [hp] at h; exact ⟨o, i, rfl, hp, h⟩
+
+theorem afterGet_out {α : Type} (g : GetR α) (parse : α → Option Info) (o : Out) (h : afterGet g parse = o) :
+    (o = .nothing → g = .notFound) ∧ (∀ w, o ≠ .wlErr w) ∧ (o = .panic → ∃ x, g = .found x ∧ parse x = none) := by
+  unfold afterGet at h
+  cases g with
+  | notFound => subst h; simp
+  | err => subst h; simp
+  | found x =>
+    simp only at h
+    cases hp : parse x with
+    | none => rw [hp] at h; subst h; simp [hp]
+    | some i =>
+      rw [hp] at h
+      obtain ⟨w, hw⟩ := stsLikeOf_out i
+      simp only [hw] at h; subst h; simp
+
+theorem getUnstr_found (c : Cluster) (gvk : GVK) (ns name : String) (u : Unstr) (h : c.getUnstr gvk ns name = .found u) :
+    c.unstructured.find? (fun u => u.gvk == gvk && u.m.ns == ns && u.m.name == name) = some u := by
+  unfold Cluster.getUnstr at h
+  split at h
+  · cases h
+  · split at h
+    · cases h
+    · split at h
+      · cases h; assumption
+      · cases h
+
+theorem getUnstr_notFound (c : Cluster) (gvk : GVK) (ns name : String) (h : c.getUnstr gvk ns name = .notFound) :
+    c.unstructured.find? (fun u => u.gvk == gvk && u.m.ns == ns && u.m.name == name) = none ∧ gvk.version ≠ "" ∧ gvk.kind ≠ "" := by
+  unfold Cluster.getUnstr at h
+  split at h
+  · cases h
+  · split at h
+    · cases h
+    · rename_i hv
+      split at h
+      · cases h
+      · exact ⟨by assumption, fun e => hv (Or.inl e), fun e => hv (Or.inr e)⟩
+
+theorem stsLike_wl (c : Cluster) (ns : String) (ref : Ref) (w : W) (h : getStatefulSetLikeWorkload c ns ref = .wl w) :
+    ∃ i, stsTarget c ns ref = some i ∧ agrees w (infoFacts i) = true := by
+  unfold getStatefulSetLikeWorkload at h
+  unfold stsTarget
+  split at h
+  · cases h
+  all_goals
+    rename_i he
+    rw [he]
+    obtain ⟨o, i, hg, hp, hs⟩ := afterGet_wl _ _ _ h
+    refine ⟨i, ?_, stsLikeOf_wl i w hs⟩
+  · cases hp
+  · simp [get_found _ _ _ _ _ _ _ hg, hp]
+  · simp [get_found _ _ _ _ _ _ _ hg, hp]
+  · simp [get_found _ _ _ _ _ _ _ hg, hp]
+  · simp [get_found _ _ _ _ _ _ _ hg, hp]
+  · simp [get_found _ _ _ _ _ _ _ hg, hp]
+  · simp [getUnstr_found _ _ _ _ _ hg, hp]
+
+theorem stsLike_out (c : Cluster) (ns : String) (ref : Ref) (o : Out) (h : getStatefulSetLikeWorkload c ns ref = o) :
+    (o = .nothing → stsTarget c ns ref = none) ∧ (∀ w, o ≠ .wlErr w) ∧
+    (o = .panic → stsTarget c ns ref = none ∧ present c ns ref .stsLike = true) := by
+  unfold getStatefulSetLikeWorkload at h
+  unfold stsTarget
+  simp only [present]
+  split at h
+  · rename_i he; rw [he]; subst h; simp
+  all_goals
+    rename_i he
+    rw [he]
+    obtain ⟨h1, h2, h3⟩ := afterGet_out _ _ _ h
+    refine ⟨fun e => ?_, h2, fun e => ?_⟩
+  · rfl
+  · obtain ⟨x, hx, _⟩ := h3 e
+    simp [get_found _ _ _ _ _ _ _ hx]
+  · simp [get_notFound _ _ _ _ _ _ (h1 e)]
+  · obtain ⟨x, hx, hp⟩ := h3 e
+    simp [get_found _ _ _ _ _ _ _ hx, hp]
+  · simp [get_notFound _ _ _ _ _ _ (h1 e)]
+  · obtain ⟨x, hx, hp⟩ := h3 e
+    simp [get_found _ _ _ _ _ _ _ hx, hp]
+  · simp [get_notFound _ _ _ _ _ _ (h1 e)]
+  · obtain ⟨x, hx, hp⟩ := h3 e
+    simp [get_found _ _ _ _ _ _ _ hx, hp]
+  · simp [get_notFound _ _ _ _ _ _ (h1 e)]
+  · obtain ⟨x, hx, hp⟩ := h3 e
+    simp [get_found _ _ _ _ _ _ _ hx, hp]
+  · simp [get_notFound _ _ _ _ _ _ (h1 e)]
+  · obtain ⟨x, hx, hp⟩ := h3 e
+    simp [get_found _ _ _ _ _ _ _ hx, hp]
+  · simp [(getUnstr_notFound _ _ _ _ (h1 e)).1]
+  · obtain ⟨x, hx, hp⟩ := h3 e
+    simp [getUnstr_found _ _ _ _ _ hx, hp]
+
+theorem isSupported_eq (f : Bool) (gvk : GVK) :
+    isSupportedWorkload f gvk = (!f || knownGroupKind gvk.group gvk.kind) := by
+  unfold isSupportedWorkload knownGroupKind
+  cases f
+  · simp
+  · simp only [Bool.not_true, Bool.false_or, knownWorkloadGVKs, List.any]
+    cases h1 : gvk.group == "apps" <;> cases h2 : gvk.group == "apps.kruise.io" <;>
+    cases k1 : gvk.kind == "ReplicaSet" <;> cases k2 : gvk.kind == "Deployment" <;> cases k3 : gvk.kind == "StatefulSet" <;>
+    cases k4 : gvk.kind == "CloneSet" <;> cases k5 : gvk.kind == "DaemonSet" <;> simp_all
+
+theorem gvk_group (ref : Ref) :
+    knownRef (groupOf ref) ref.kind =
+      knownGroupKind (fromAPIVersionAndKind ref.apiVersion ref.kind).group (fromAPIVersionAndKind ref.apiVersion ref.kind).kind := by
+  unfold groupOf fromAPIVersionAndKind knownRef
+  cases parseGroupVersion ref.apiVersion with
+  | none => simp [knownGroupKind]
+  | some gv => simp
+
+theorem stsLike_not_owns (c : Cluster) (ns : String) (ref : Ref)
+    (ho : owns c.filter (groupOf ref) ref.kind .stsLike = false) : getStatefulSetLikeWorkload c ns ref = .nothing := by
+  unfold getStatefulSetLikeWorkload getEmptyWorkloadObject
+  simp only [owns] at ho
+  rw [gvk_group] at ho
+  rw [isSupported_eq, ho]
+  simp
+
+theorem stsLike_absent (c : Cluster) (ns : String) (ref : Ref) (hf : c.failGet = [])
+    (hp : present c ns ref .stsLike = false) : getStatefulSetLikeWorkload c ns ref = .nothing := by
+  unfold getStatefulSetLikeWorkload
+  simp only [present] at hp
+  split
+  · rfl
+  all_goals
+    rename_i he
+    rw [he] at hp
+    simp only at hp
+  · have : lookup ReplicaSet.m c.replicaSets ns ref.name = none := by
+      cases hl : lookup ReplicaSet.m c.replicaSets ns ref.name <;> simp_all
+    unfold Cluster.getReplicaSet
+    rw [get_noFault _ _ _ _ _ _ hf this]; rfl
+  · have : lookup DaemonSet.m c.daemonSets ns ref.name = none := by
+      cases hl : lookup DaemonSet.m c.daemonSets ns ref.name <;> simp_all
+    unfold Cluster.getDaemonSet
+    rw [get_noFault _ _ _ _ _ _ hf this]; rfl
+  · have : lookup Deployment.m c.deployments ns ref.name = none := by
+      cases hl : lookup Deployment.m c.deployments ns ref.name <;> simp_all
+    unfold Cluster.getDeployment
+    rw [get_noFault _ _ _ _ _ _ hf this]; rfl
+  · have : lookup CloneSet.m c.cloneSets ns ref.name = none := by
+      cases hl : lookup CloneSet.m c.cloneSets ns ref.name <;> simp_all
+    unfold Cluster.getCloneSet
+    rw [get_noFault _ _ _ _ _ _ hf this]; rfl
+  · have : lookup Sts.m c.nativeSts ns ref.name = none := by
+      cases hl : lookup Sts.m c.nativeSts ns ref.name <;> simp_all
+    unfold Cluster.getNativeSts
+    rw [get_noFault _ _ _ _ _ _ hf this]; rfl
+  · have : lookup Sts.m c.kruiseSts ns ref.name = none := by
+      cases hl : lookup Sts.m c.kruiseSts ns ref.name <;> simp_all
+    unfold Cluster.getKruiseSts
+    rw [get_noFault _ _ _ _ _ _ hf this]; rfl
+  · rename_i gvk
+    simp only [Bool.or_eq_false_iff, beq_eq_false_iff_ne, ne_eq, Option.isSome_eq_false_iff, Option.isNone_iff_eq_none] at hp
+    obtain ⟨⟨hv, hk⟩, hfind⟩ := hp
+    unfold Cluster.getUnstr
+    simp [hf, hv, hk, hfind, afterGet]
+
+/-! ### dispatch -/
+
+theorem run_not_owns (c : Cluster) (ns : String) (ref : Ref) (f : FinderId)
+    (h : owns c.filter (groupOf ref) ref.kind f = false) : runFinder c ns ref f = .nothing := by
+  cases f with
+  | deployment => exact deployment_not_owns c ns ref h
+  | cloneSet => exact cloneSet_not_owns c ns ref h
+  | advancedDeployment => exact advanced_not_owns c ns ref h
+  | stsLike => exact stsLike_not_owns c ns ref h
+  | daemonSet => exact daemonSet_not_owns c ns ref h
+
+theorem run_absent (c : Cluster) (ns : String) (ref : Ref) (f : FinderId) (hf : c.failGet = [])
+    (h : present c ns ref f = false) : runFinder c ns ref f = .nothing := by
+  cases f with
+  | deployment => exact deployment_absent c ns ref hf h
+  | cloneSet => exact cloneSet_absent c ns ref hf h
+  | advancedDeployment => exact advanced_absent c ns ref hf h
+  | stsLike => exact stsLike_absent c ns ref hf h
+  | daemonSet => exact daemonSet_absent c ns ref hf h
+
+theorem firstHit_filter (p : FinderId → Bool) (g : FinderId → Out) (l : List FinderId)
+    (h : ∀ f, p f = false → g f = .nothing) : firstHit (l.map g) = firstHit ((l.filter p).map g) := by
+  induction l with
+  | nil => rfl
+  | cons f fs ih =>
+    cases hp : p f
+    · simp only [List.map_cons, List.filter_cons, hp, Bool.false_eq_true, if_false, h f hp, firstHit, ih]
+    · simp only [List.map_cons, List.filter_cons, hp, if_true]
+      cases hg : g f <;> simp [firstHit, ih]
+
+theorem dispatch (c : Cluster) (s : Strategy) (ns : String) (ref : Ref) (st : Style) (hs : getRollingStyle s = some st) :
+    getWorkloadForRef c s ns ref = firstHit ((owners st c.filter (groupOf ref) ref.kind).map (runFinder c ns ref)) := by
+  unfold getWorkloadForRef owners
+  rw [hs]
+  exact firstHit_filter _ _ _ (fun f hf => run_not_owns c ns ref f hf)
+
+theorem run_wl_facts (c : Cluster) (ns : String) (ref : Ref) (f : FinderId) (w : W) (h : runFinder c ns ref f = .wl w) :
+    ∃ F, factsOf c ns ref f = some F ∧ agrees w F = true := by
+  cases f with
+  | deployment => obtain ⟨d, hl, ha⟩ := deployment_wl c ns ref w h; exact ⟨_, by simp [factsOf, hl], ha⟩
+  | cloneSet => obtain ⟨d, hl, ha⟩ := cloneSet_wl c ns ref w h; exact ⟨_, by simp [factsOf, hl], ha⟩
+  | advancedDeployment => obtain ⟨d, hl, ha⟩ := advanced_wl c ns ref w h; exact ⟨_, by simp [factsOf, hl], ha⟩
+  | stsLike => obtain ⟨i, hl, ha⟩ := stsLike_wl c ns ref w h; exact ⟨_, by simp [factsOf, hl], ha⟩
+  | daemonSet => obtain ⟨d, hl, ha⟩ := daemonSet_wl c ns ref w h; exact ⟨_, by simp [factsOf, hl], ha⟩
+
+theorem run_nothing_facts (c : Cluster) (ns : String) (ref : Ref) (f : FinderId) (h : runFinder c ns ref f = .nothing)
+    (ho : owns c.filter (groupOf ref) ref.kind f = true) : factsOf c ns ref f = none := by
+  cases f with
+  | deployment => simp [factsOf, (deployment_out c ns ref _ h).1 rfl ho]
+  | cloneSet => simp [factsOf, cloneSet_nothing c ns ref h ho]
+  | advancedDeployment => simp [factsOf, (advanced_out c ns ref _ h).1 rfl ho]
+  | stsLike => simp [factsOf, (stsLike_out c ns ref _ h).1 rfl]
+  | daemonSet => simp [factsOf, daemonSet_nothing c ns ref h ho]
+
+theorem firstHit_facts (c : Cluster) (ns : String) (ref : Ref) (os : List FinderId) (w : W)
+    (hos : ∀ f ∈ os, owns c.filter (groupOf ref) ref.kind f = true)
+    (h : firstHit (os.map (runFinder c ns ref)) = .wl w) :
+    ∃ F, os.findSome? (factsOf c ns ref) = some F ∧ agrees w F = true := by
+  induction os with
+  | nil => simp [firstHit] at h
+  | cons f fs ih =>
+    simp only [List.map_cons] at h
+    cases hr : runFinder c ns ref f with
+    | nothing =>
+      rw [hr] at h
+      simp only [firstHit] at h
+      have hn := run_nothing_facts c ns ref f hr (hos f (by simp))
+      obtain ⟨F, hF, ha⟩ := ih (fun g hg => hos g (by simp [hg])) h
+      exact ⟨F, by simp [List.findSome?_cons, hn, hF], ha⟩
+    | wl w' =>
+      rw [hr] at h
+      simp only [firstHit] at h
+      cases h
+      obtain ⟨F, hF, ha⟩ := run_wl_facts c ns ref f w hr
+      exact ⟨F, by simp [List.findSome?_cons, hF], ha⟩
+    | err => rw [hr] at h; simp [firstHit] at h
+    | wlErr w' => rw [hr] at h; simp [firstHit] at h
+    | panic => rw [hr] at h; simp [firstHit] at h
+
+theorem owners_owns (st : Style) (filter : Bool) (g : Option String) (k : String) :
+    ∀ f ∈ owners st filter g k, owns filter g k f = true := by
+  intro f hf
+  exact (List.mem_filter.1 hf).2
+
+/-- **the record agrees with the facts** of the workload the Rollout designates -/
+theorem facts_sound (c : Cluster) (s : Strategy) (ns : String) (ref : Ref) (w : W)
+    (h : getWorkloadForRef c s ns ref = .wl w) : ∃ F, facts c s ns ref = some F ∧ agrees w F = true := by
+  unfold facts
+  cases hs : getRollingStyle s with
+  | none => simp [getWorkloadForRef, hs] at h
+  | some st =>
+    rw [dispatch c s ns ref st hs] at h
+    exact firstHit_facts c ns ref _ w (owners_owns _ _ _ _) h
+
 end RV.Lemmas.Finder
